@@ -1,6 +1,7 @@
 package main
 
 import (
+	"bytes"
 	"crypto/sha256"
 	"encoding/hex"
 	"fmt"
@@ -47,7 +48,8 @@ func setWindow(e []byte, p, v int) {
 }
 
 func runC08(c *Ctx) {
-	c.res.Rule = "finite domain 10 languages x 2048 indices, enumerated completely: (a) the word emitted by NewMnemonicByEntropy for index i placed in every full 11-bit window of every entropy size must equal golden[lang][i]; the list observed through the API is re-hashed and compared with the pinned digest and checked for 2048 distinct, non-empty, whitespace-free, NFKD-stable (x/text; golden is checked with CPython at setup) words; (b) for every (language, i) reference-valid sentences with word i at each of positions 0..10 of a 12-word sentence and position 12 of a 24-word sentence must be accepted, and the same sentences with word i replaced by word i^1 must be judged like the reference judges them (thorough: full 2048-word last-word sweep for every (language, i) at position 0); (c) the source text of internal/wordlist/*.go is parsed and compared with golden. distinct_nontrivial = distinct (language, index) pairs observed through the API"
+	c.res.Rule = "finite domain 10 languages x 2048 indices, enumerated completely: (a) the word emitted by NewMnemonicByEntropy for index i placed in every full 11-bit window of every entropy size must equal golden[lang][i]; the list observed through the API is re-hashed and compared with the pinned digest and checked for 2048 distinct, non-empty, whitespace-free, NFKD-stable (x/text; golden is checked with CPython at setup) words; (b) for every (language, i) reference-valid sentences with word i at each of positions 0..10 of a 12-word sentence and position 12 of a 24-word sentence must be accepted, and the same sentences with word i replaced by word i^1 must be judged like the reference judges them (thorough: full 2048-word last-word sweep for every (language, i) at position 0); (c) the source text of internal/wordlist/*.go is parsed and compared with golden; (d) every (language, index) emitted once more after every entry point was exercised in every language, failing paths included. distinct_nontrivial = distinct (language, index) pairs observed through the API Cold-start phase: for each of the ten languages a fresh child process whose first library call is an encoding (resp. a validation) in that language, followed by all ten languages, compared with the reference (what depends on which language - or the zero value of Language - came first)."
+	defer c.coldStartPhase("enc")
 	c.Assume("golden lists are canonical (english digest independently known; nine digests trust-on-first-use)")
 	type job struct{ l, i int }
 	var observedPairs int64
@@ -179,6 +181,47 @@ func runC08(c *Ctx) {
 		}
 	}
 	c.SetExtra("observed_list_digests", digests)
+	// (d) the lists after use: every entry point is exercised in every language, failing paths
+	// included (unknown token, bad checksum, wrong count, bad entropy length, failing source), then
+	// every (language, index) is emitted once more - a list sorted, trimmed or patched in place by some
+	// path shows here
+	for l := 0; l < ref.NLang; l++ {
+		words := c.M.Words(bytes.Repeat([]byte{byte(0x31 + l)}, 32), l)
+		for _, p := range []int{0, 7, 23} {
+			for _, tok := range []string{"zz" + words[p], c.M.List[(l+1)%ref.NLang][1234], words[p] + "\u0301", strings.ToUpper(words[p]) + "x"} {
+				t := append([]string(nil), words...)
+				t[p] = tok
+				c.validate(strings.Join(t, " "), Langs[l])
+			}
+		}
+		c.validate(strings.Join(words[:23], " "), Langs[l])
+		c.validate(strings.Join(append(append([]string(nil), words[:23]...), words[0]), " "), Langs[l])
+		call(func() {
+			_, _ = bip39.NewMnemonicByEntropy(make([]byte, 17), Langs[l])
+			prev := bip39.VerifSwapRandSource(failingReader{})
+			_, _ = bip39.NewMnemonic(12, Langs[l])
+			bip39.VerifSwapRandSource(prev)
+			_, _ = bip39.NewMnemonic(13, Langs[l])
+			_ = bip39.MnemonicToSeed(strings.Join(words, ref.Sep(l)), "x")
+			_ = Langs[l].String()
+		})
+	}
+	for l := 0; l < ref.NLang; l++ {
+		for i := 0; i < 2048; i++ {
+			for _, p := range []int{0, 10} {
+				e := entropyWithWindow(16, p, i, 0x55)
+				var got string
+				pn := call(func() { got, _ = bip39.NewMnemonicByEntropy(e, Langs[l]) })
+				c.Eval(1)
+				ws := strings.Split(got, ref.Sep(l))
+				if pn != "" || p >= len(ws) || ws[p] != c.M.List[l][i] {
+					c.Violate(fmt.Sprintf("list-after-use:%d:%d", l, i), fmt.Sprintf("after every entry point was exercised (failing paths included), %s index %d is emitted as %q, canonical word is %q (panic=%q)", ref.LangNames[l], i, got, c.M.List[l][i], pn),
+						map[string]interface{}{"kind": "list-after-use", "lang": l, "index": i})
+				}
+			}
+		}
+	}
+	c.AddScope("(language, index) emitted again after all entry points incl. failing paths were exercised", 10*2048, true, "")
 	// (c) source text
 	repo := os.Getenv("VERIF_REPO")
 	if repo == "" {
